@@ -19,6 +19,17 @@ func rowsVal(rows [][]byte) []interface{} {
 func fecEvent(data []byte, size, red int) M {
 	ev := M{"ev": "fec", "size": size, "red": red, "data": bs(data)}
 	in := append([]byte{}, data...)
+	if curCtx != nil && curCtx.rnd.Intn(2) == 0 && size > 0 && red >= 0 && red*size <= 1<<16 {
+		// the block is the leading part of a larger buffer (a firmware image, a receive buffer): spare capacity behind it,
+		// enough for the parity rows, holding other data
+		backing := make([]byte, len(data)+red*size+curCtx.rnd.Intn(40))
+		curCtx.rnd.Read(backing)
+		for i := len(data); i < len(backing); i++ {
+			backing[i] |= 1
+		}
+		copy(backing, data)
+		in = backing[:len(data)]
+	}
 	var rows [][]byte
 	res, _ := observe(func() error {
 		var err error
